@@ -294,3 +294,25 @@ Theorem C13_source_estimator_distance_is_model_distance : forall ora r pos i j, 
      = r * dist_haversine (RO ora) 2 pos i j.
 Proof. exact gen_estimator_distance_is_model_distance. Qed.
 Print Assumptions C13_source_estimator_distance_is_model_distance.
+
+(* 19. holders (Krige / CondSRF keep the isometrized conditioning positions): for EVERY operation history (model
+       replacement, in-place changes of the held model, set_condition(), set_condition(new data)) whose last operation
+       is not an in-place change, the system an evaluation hands to the solver is the one of a FRESH object built from
+       the present model and data — every number type; a model replacement is the same as a fresh initialisation *)
+Theorem C13_holder_history_is_fresh :
+  forall (T : Type) (O : NumOps T) (h : holder (T := T)) ops op cf cfr unbiased cond_err tgt,
+  refreshing op = true ->
+  let h' := hrun O h (ops ++ [op]) in
+  h_kpos h' = map (isometrize O (h_model h')) (h_cond h') /\
+  holder_system O h' cf cfr unbiased cond_err tgt = krige_system O (h_model h') cf cfr unbiased cond_err (h_cond h') tgt.
+Proof.
+  intros T O h ops op cf cfr unbiased cond_err tgt Hr h'.
+  pose proof (holder_history_coherent O h ops op Hr) as Hc.
+  split; [exact Hc | exact (holder_system_is_fresh O h' cf cfr unbiased cond_err tgt Hc)].
+Qed.
+Print Assumptions C13_holder_history_is_fresh.
+
+Theorem C13_holder_set_model_is_init : forall (T : Type) (O : NumOps T) (h : holder (T := T)) ops m,
+  hrun O h (ops ++ [HSetModel m]) = hinit O m (h_cond (hrun O h ops)).
+Proof. exact @holder_set_model_is_init. Qed.
+Print Assumptions C13_holder_set_model_is_init.
